@@ -26,6 +26,7 @@ TWIN_FAMILIES = [
     [b'chr1', b'chr01', b'chr001', b'chr10'],
     [b'scaffold_7', b'scaffold_007', b'scaffold_70'],
     [b'0', b'00', b'000'],
+    [b'2', b'10', b'1a', b'9', b'100', b'02'],          # digits-only names of different lengths: byte order is not numeric order
     [b'chrX', b'chrx', b'CHRX', b'ChrX'],
     [b'chrM', b'chrm', b'chrMT'],
     [b'chr1', b'chr1 ', b' chr1', b'chr1\x00'],
